@@ -271,7 +271,7 @@ func runC16(w *World) {
 			}
 			pc.Agree(pc.Name, 0, 0, "")
 			for pi, p := range privProbes {
-				if p.Name == "disconnect-user" || p.Name == "invite-to-chat" {
+				if p.Name == "disconnect-user" || p.Name == "invite-to-chat" || p.Any { // (Any: probes whose governing privilege is not determined, judged by C05 only)
 					continue
 				}
 				allowed := true
